@@ -761,6 +761,9 @@ fn mask(width: u8) -> u64 {
 // ---------------------------------------------------------------------------------------------
 // Scheduling
 
+/// Queued deliveries carry si_code SI_TIMER instead of SI_QUEUE while this is set (per scenario, in setup).
+pub static QUEUE_AS_TIMER: std::sync::atomic::AtomicBool = std::sync::atomic::AtomicBool::new(false);
+
 /// The pattern queued deliveries carry in bytes 32..48 of their record.
 pub fn payload_pattern(v: u64) -> u64 {
     v.wrapping_mul(0x9e3779b97f4a7c15) ^ 0xa5a5_5a5a_c3c3_3c3c
@@ -807,7 +810,8 @@ fn do_raise_with(t: usize, sig: i32, value: Option<usize>) {
                 let mut info: [u64; 16] = [0; 16];
                 let bytes = info.as_mut_ptr() as *mut u8;
                 *(bytes as *mut i32) = sig;
-                *(bytes.add(8) as *mut i32) = -1; // SI_QUEUE
+                // SI_QUEUE - or, for scenarios that say so, SI_TIMER: a record of a kind that names no sender
+                *(bytes.add(8) as *mut i32) = if QUEUE_AS_TIMER.load(Ordering::SeqCst) { -2 } else { -1 };
                 *(bytes.add(16) as *mut i32) = libc::getpid();
                 *(bytes.add(20) as *mut u32) = libc::getuid();
                 *(bytes.add(24) as *mut u64) = v as u64;
